@@ -507,9 +507,8 @@ func (g *gen) field(thisField, thatField string, fieldType types.Type) (string, 
 	case *types.Array, *types.Map:
 		return fmt.Sprintf("%s(%s, %s)", g.GetFuncName(typ, typ), thisField, thatField), nil
 	case *types.Slice:
-		if b, ok := typ.Elem().(*types.Basic); ok && b.Kind() == types.Byte {
-			return fmt.Sprintf("%s.Compare(%s, %s)", g.bytesPkg(), thisField, thatField), nil
-		}
+		// no bytes.Compare shortcut for []byte: it treats nil and empty alike, whereas the derived
+		// equal and the compare function for a top-level []byte tell them apart
 		return fmt.Sprintf("%s(%s, %s)", g.GetFuncName(typ, typ), thisField, thatField), nil
 	case *types.Struct:
 		return g.field("&"+thisField, "&"+thatField, types.NewPointer(fieldType))
